@@ -171,8 +171,8 @@ dev_impl! {
 
 /// a generated optic through the lax trait (Vec device): map_arrow and map_adapted
 #[derive(Clone)]
-struct LaxGen {
-    spec: OSpec,
+pub struct LaxGen {
+    pub spec: OSpec,
 }
 impl lax::optic::Optic<L, L, L, L> for LaxGen {
     fn fwd_object(&self, o: &L) -> Vec<L> {
